@@ -22,7 +22,9 @@ with the model after EVERY event), generators aimed at segmentation:
   stale  : deterministic: a complete transfer, then duplicates of its own
            segments arrive late (after the transaction is over), in every
            short pattern — nothing may be handed to the application that was
-           not submitted.
+           not submitted; and a client still waiting for the last segment ack
+           of its request is hit by late response segments (of an earlier
+           transaction under the same invoke ID) in every short pattern.
   corpus : corpus/C05/*.json first (pre-fix witnesses).
 
 Implementation-side oracle (independent of the model, evaluated on what the REAL
@@ -547,6 +549,47 @@ class RecvRun(Scenario):
             pass
 
 
+
+class StaleClient(Scenario):
+    """the real access point is a CLIENT that has sent all segments of its request and waits for the
+    last segment ack (SEGMENTED_REQUEST): late duplicates of the segments of a response (of an earlier
+    transaction with the same invoke ID) arrive.  params: tail = indices of the response segments"""
+
+    def run(self):
+        p = self.params
+        cfg = T.default_cfg()
+        cfg.update(seg=3, window=4, maxApdu=50, maxSegs=16)
+        L = T.Lock(cfg, [])
+        self.L = L
+        L.label = "stalec-%s" % "-".join(map(str, p["tail"]))
+        R = pattern(45 * 3 - 5, 8)
+        slices = cut(R, 45)
+        pref = fnv_prefixes(R, 45)
+        L.request(0, 200, pattern(80, 7))                                   # 2 segments toward a 50-octet peer
+        L.frame(0, {"t": 4, "srv": 1, "id": 1, "seq": 0, "win": 2})         # first ack: the last segment goes out
+        k = None                                                            # last response segment accepted in order
+        for i in p["tail"]:
+            before = self.digest("cl", 1)
+            r = L.frame(0, {"t": 3, "id": 1, "svc": 200, "seg": 1, "mor": 1 if i < 2 else 0, "seq": i,
+                            "win": 2, "hex": slices[i].hex()})
+            for o in r["out"]:
+                if o["o"] == "conf" and o["h"][0] == 3 and (o["n"], o["d"]) != (len(R), T.fnv64(R)):
+                    self.fail("response-payload", "the application was confirmed %d octets (hash differs) assembled "
+                              "from late segments %r; the response has %d" % (o["n"], p["tail"], len(R)))
+            now = self.digest("cl", 1)
+            if now is not None and now[2] == 5:
+                if before is not None and before[2] != 5:
+                    k = 0 if i == 0 else None
+                    if i != 0:
+                        self.fail("stale-segment-opens-transfer", "segment %d of a response opened the reassembly "
+                                  "buffer of a client that was still sending its request" % i)
+                elif k is not None and i == k + 1:
+                    k += 1
+                ctx = now[16]
+                if not self.failed and (k is None or ctx is None or (ctx[3], ctx[4]) != pref[k]):
+                    self.fail("buffer", "reassembly buffer is not the concatenation of segments 0..%r" % k)
+        return L
+
 # ---------------------------------------------------------------- generators
 
 def boundary_lengths(size):
@@ -626,8 +669,14 @@ def stale_specs(ctx):
     return out
 
 
+def stale_client_specs(ctx):
+    idx = [0, 1, 2]
+    pats = [[a] for a in idx] + [[a, b] for a in idx for b in idx] + [[a, b, c] for a in idx for b in idx for c in idx]
+    return [{"role": "c", "tail": t, "count_hint": 3} for t in pats]
+
+
 def run_one(ctx, kind, params, ch):
-    cls = SendRun if kind == "send" else RecvRun
+    cls = SendRun if kind == "send" else (StaleClient if kind == "stalec" else RecvRun)
     sc = cls(ctx, kind if kind != "stale" else "stale", params, ch)
     L = sc.run()
     ctx.count(kind + "-scenario", (kind, params["role"], min(params.get("count_hint", 0), 6),
@@ -734,6 +783,7 @@ def run(ctx):
             part = lab[c::nchunk]
             if part:
                 specs.append((kind, part))
+    specs.append(("stale", [("c%d" % i, "stalec", p) for i, p in enumerate(stale_client_specs(ctx))]))
     for i, (k2, p) in enumerate(long_specs(ctx, rng)):
         specs.append(("long", [("%d" % i, k2, p)]))
     core.run_shards(ctx, "harness.c05", "shard", specs)
@@ -754,6 +804,8 @@ def search(ctx):
         shard(ctx, ("recv", [("s%d" % i, "recv", p) for i, p in enumerate(rs)]))
     if not ctx.failures:
         shard(ctx, ("stale", [("s%d" % i, "recv", p) for i, p in enumerate(stale_specs(ctx))]))
+    if not ctx.failures:
+        shard(ctx, ("stale", [("c%d" % i, "stalec", p) for i, p in enumerate(stale_client_specs(ctx))]))
 
 
 def replay(ctx, payload):
